@@ -1281,7 +1281,10 @@ func (d *descendantOverDescendantQuery) Select(t iterator) NodeNavigator {
 				d.posit = 1
 				return d.currentNode
 			}
-			d.moveToFirstChild()
+			if !d.moveToFirstChild() {
+				// No descendants: the input node itself is not a candidate.
+				continue
+			}
 		} else if !d.moveUpUntilNext() {
 			continue
 		}
